@@ -445,7 +445,9 @@ impl<'a> Gen<'a> {
         let bal = self.run.h.w.balance(sender, &lp);
         let amt = match self.r.below(6) { 0 => 1 + self.r.below(3) as u128, 1 => bal / 2, 2 => bal / 10 + 1, 3 => bal / 1000 + 1, _ => bal / 20 + 1 };
         let dur = match self.r.below(8) { 0 => DAY, 1 => 31_556_926, 2 => 15_778_463, 3 => DAY - 1, 4 => 31_556_927, _ => DAY * (1 + self.r.below(360)) + self.r.below(1000) };
-        let id = match self.r.below(4) { 0 => "-".to_string(), _ => format!("{}{}", sender, self.r.below(4)) };
+        // malformed identifiers now and then: a forbidden character, 65 / 70 characters (prefix "u-" included the limit is 66 bytes)
+        let id = match self.r.below(30) { 0..=6 => "-".to_string(), 7 => "bad$id".to_string(), 8 => "a/b".to_string(), 9 => "x".repeat(64), 10 => "x".repeat(65), 11 => "x".repeat(70),
+            _ => format!("{}{}", sender, self.r.below(4)) };
         let recv = match self.r.below(10) { 0 => SENDERS[self.r.below(4) as usize].to_string(), 1 => sender.to_string(), _ => "-".into() };
         let funds = if amt == 0 { vec![] } else { vec![coin(amt, lp)] };
         self.emit(format!("tx {} {} fm createpos {} {} {}", sender, funds_str(&funds), id, dur, recv));
@@ -557,7 +559,16 @@ impl<'a> Gen<'a> {
             }
             _ => {}
         }
-        let id = match self.r.below(3) { 0 => "-".to_string(), _ => format!("f{}", self.r.below(6)) };
+        let id = match self.r.below(24) { 0..=7 => "-".to_string(), 8 => "bad$id".to_string(), 9 => "y".repeat(64), 10 => "y".repeat(65), _ => format!("f{}", self.r.below(6)) };
+        // invalid epoch windows now and then: end = start, end before start, end in the past, start beyond the buffer
+        let (start, end) = match self.r.below(24) {
+            0 => (start.clone(), s_num.to_string()),
+            1 => (start.clone(), s_num.saturating_sub(1).to_string()),
+            2 => ("-".to_string(), cur.to_string()),
+            3 => ((cur + 15 + self.r.below(3)).to_string(), (cur + 40).to_string()),
+            4 => ((cur + 14).to_string(), (cur + 40).to_string()),
+            _ => (start, end),
+        };
         self.emit(format!("tx {} {} fm createfarm {} {} {} {} {} {}", sender, funds_str(&funds), lp, start, end, ad, aa, id));
     }
 
@@ -828,7 +839,12 @@ impl<'a> Gen<'a> {
             2 => { f[3] = "uusd".into(); f[4] = "0".into(); }
             3 => { f[5] = (1 + self.r.below(4)).to_string(); }
             4 => { f[10] = ["0", "100000000000000000", "1000000000000000000", "1000000000000000001", "500000000000000000"][self.r.below(5) as usize].into(); }
-            5 => { f[7] = (DAY * (1 + self.r.below(3))).to_string(); }
+            5 => match self.r.below(4) {
+                0 => { f[7] = (DAY * 400).to_string(); }                                   // minimum above the maximum
+                1 => { f[8] = (DAY - 1).to_string(); }                                     // maximum below the minimum
+                2 => { f[7] = (DAY * 2).to_string(); f[8] = DAY.to_string(); }             // both, inverted
+                _ => { f[7] = (DAY * (1 + self.r.below(3))).to_string(); }
+            },
             6 => { f[9] = (2_629_746 + self.r.below(10) - 5).to_string(); }
             _ => { f[6] = self.r.below(30).to_string(); }
         }
